@@ -27,7 +27,7 @@ META = {
     "out_of_reach": ["xml.sax / expat callback order, XMLGenerator escaping (library code driven by C callbacks)"],
 }
 
-BOUND = ("documents: optional XML declaration x {no DOCTYPE, <!DOCTYPE root>} x root with <= 3 children drawn from a pool of 11 element shapes "
+BOUND = ("documents: optional XML declaration x {no DOCTYPE, <!DOCTYPE root>} x root with <= 3 children drawn from a pool of 13 element shapes "
          "(attributes incl. entities and both quote kinds, text with entities, CDATA with markup characters, comments directly after a start tag, "
          "processing instructions, namespaces, mixed content, empty elements, non-ASCII); edits: attribute map on <target>, new element under <cfg>")
 
@@ -98,6 +98,8 @@ CHILDREN = [
     'lead<b>bold</b>tail',
     '<e></e>',
     '<name>café 中</name>',
+    '<script><!-- inline --><![CDATA[\nif (a < b) { go(); }\n]]></script>',
+    '<p>x<!-- c -->\ny</p>',
 ]
 PROLOGS = ['<?xml version="1.0" encoding="utf-8"?>\n', ""]
 DOCTYPES = ["", "<!DOCTYPE root>\n"]
